@@ -198,13 +198,14 @@ contract(A + "Action.child", props=["C02", "C01", "C04"],
 LOG_KEYS = "'timestamp', 'task_uuid', 'task_level', 'message_type'"
 contract(A + "Action.log", props=["C02", "C01", "C07", "C13"],
          types={"message_type": "Any", "fields": "dict[__eliot_logger__:role:ILogger;*:Any]"}, returns="none",
-         ghosts={"R": "seqe", "L": "Any", "SER": "Any"},
+         ghosts={"R": "seqe", "L": "Any", "SER": "Any", "DOFF": "seqe"},
          snapshots={"ILogger.write#0": [("L", "box(self)"), ("SER", "box(serializer)")]},
-         after={"ILogger.write#0": [("R", "R")]},
+         after={"ILogger.write#0": [("R", "R"), ("DOFF", "DOFF")]},
          requires=[("rep-ok", "rep_ok(self)"), ("current-ok", "cur_ok()"),
                    ("fields-private", "forall(lambda a: box(fields) != a._identification and box(fields) != a._successFields, 'ref:obj')")],
          modifies=LOGGING_FRAME + ["dict(fields)"],
          ensures=[("one-write-then-only-reports", "LOG == old(LOG) + [write_ev(L, fields, SER)] + R and all_reports(R)", ["C01", "C02"]),
+                  ("offers-appended", "OFFERS == old(OFFERS) + DOFF"),
                   ("logger-chosen", "L == old(dget(fields, '__eliot_logger__', self._logger)) and SER == old(dget(fields, '__eliot_serializer__', None))", ["C13"]),
                   ("placed-at-next-position", "seq(dget(fields, 'task_level')) == old(lvl(self)) + [old(pos(self)) + 1]", ["C02"]),
                   ("task-uuid", "dget(fields, 'task_uuid') == uu(self) and dget(fields, 'message_type') == message_type and is_float(dget(fields, 'timestamp'))", ["C02"]),
@@ -248,13 +249,14 @@ contract(A + "start_action", props=["C02", "C04", "C05", "C01", "C07", "C13"], t
 
 contract(A + "log_message", props=["C02", "C04", "C05", "C01", "C07", "C08"],
          types={"message_type": "Any", "fields": "dict[__eliot_logger__:role:ILogger;*:Any]"}, returns="none",
-         ghosts={"R": "seqe", "E": "ev"},
-         after={"Action.log#0": [("R", "R"), ("E", "write_ev(L, fields, SER)")]},
+         ghosts={"R": "seqe", "E": "ev", "DOFF": "seqe"},
+         after={"Action.log#0": [("R", "R"), ("E", "write_ev(L, fields, SER)"), ("DOFF", "DOFF")]},
          requires=[("current-ok", "cur_ok()"),
                    ("current-rep-ok", "implies(curact() is not None, rep_ok(typed(curact(), 'Action')))"),
                    ("no-field-named-self", "'self' not in fields")],
          modifies=LOGGING_FRAME + ["dict(fields)", "field:$uuid_str"],
          ensures=[("one-write-then-only-reports", "LOG == old(LOG) + [E] + R and all_reports(R) and E.tag == 'write'", ["C01", "C02"]),
+                  ("offers-appended", "OFFERS == old(OFFERS) + DOFF"),
                   ("message-type", "E.e == message_type and E.d is None or 'action_status' in old(dict_of(fields))"),
                   ("serializer", "E.c == old(dget(fields, '__eliot_serializer__', None))", ["C13"]),
                   ("in-current-action", "implies(curact() is not None, E.g == old(uu(typed(curact(), 'Action'))) and "
